@@ -28,4 +28,4 @@ def sweeps(chk, sd, binp):
 
 
 def run(tier):
-    return pc.run_check("C05", tier, ("C05",), plans(tier), clauses={"NotReadmitted"}, extra=sweeps)
+    return pc.run_check("C05", tier, ("C05",), plans(tier), clauses={"NotReadmitted"}, extra=sweeps, guards={"w321"})
